@@ -59,7 +59,7 @@ def bfun_strat(draw, ncomp, ret=None):
 
 @st.composite
 def single_spec(draw, kinds=("ode", "statio", "nonstatio"), want=("eq",), maybe=("ic", "boundary", "norm", "obs"),
-                param_batch="no", hetero=False, dims=(1, 2), max_m=3, transform=None, nmax=5, obs_params=False, extra=(0, 2), nmin=1):
+                param_batch="no", hetero=False, dims=(1, 2), max_m=3, transform=None, nmax=5, obs_params=False, extra=(0, 2), nmin=1, slice_solution=False):
     kind = draw(st.sampled_from(list(kinds)))
     d = 0 if kind == "ode" else draw(st.sampled_from(list(dims)))
     time = kind != "statio"
@@ -147,7 +147,16 @@ def single_spec(draw, kinds=("ode", "statio", "nonstatio"), want=("eq",), maybe=
     else:
         spec["boundary"] = None
     # ---- observations
+    msol = m
+    if slice_solution and m >= 2 and "norm" not in on and draw(st.booleans()):
+        # the network also outputs non-solution channels: slice_solution selects the solution components
+        slo = draw(st.integers(0, m - 1))
+        shi = draw(st.integers(slo + 1, m))
+        if (slo, shi) != (0, m):
+            spec["net"]["slice_solution"] = [slo, shi]
+            msol = shi - slo
     if "obs" in on:
+        m_full, m = m, msol
         lo = draw(st.integers(0, m - 1))
         hi = draw(st.integers(lo + 1, m))
         sl = None if (lo, hi) == (0, m) and draw(st.booleans()) else [lo, hi]
@@ -161,6 +170,7 @@ def single_spec(draw, kinds=("ode", "statio", "nonstatio"), want=("eq",), maybe=
             spec["obs"]["eq_params"] = {kk: draw(st.lists(q16(0.5, 2.5) if kk == "theta" else q16(-2, 2), min_size=N,
                                                          max_size=N, unique=True)) for kk in sorted(okeys)}
         w["observations"] = draw(weight(k))
+        m = m_full
     else:
         spec["obs"] = None
     spec["w"] = w
@@ -178,6 +188,10 @@ def single_spec(draw, kinds=("ode", "statio", "nonstatio"), want=("eq",), maybe=
         for k in pn:
             if k in keys:
                 het[k] = [draw(q16(-2, 2, nonzero=True)), draw(q16(-2, 2, nonzero=True))]
+                others = [o for o in keys if o != k]
+                if others and draw(st.booleans()):
+                    # GLM-style: the function also reads the base value of another heterogeneous parameter
+                    het[k] += [draw(st.sampled_from(sorted(others))), draw(q16(-2, 2, nonzero=True))]
             elif draw(st.booleans()):
                 het[k] = None
         spec["hetero"] = het
